@@ -256,12 +256,12 @@ def receiver_stream(sigs):
     for recv in RECEIVERS:
         for meth in ("pk", "po"):
             for sig in sigs:
-                if len(sig) > 2:
+                if len(sig) > (2 if meth == "pk" else 1):
                     continue
                 calls = []
                 for pos, kw, _ in calls_for(sig, meth):
                     calls.append([pos, kw, None])
-                    if not kw:
+                    if not kw and len(pos) <= 1:
                         calls.append([pos, kw, [SELF_NAME]])
                 groups.append({"sig": sig, "meth": meth, "receiver": recv, "calls": calls, "stream": "receivers"})
     return groups
